@@ -26,7 +26,19 @@ CONFIG = dict(
              'additions every other / first half / 60 % / one in 64; scale2 (stage 2): 1000, 3000, 10000 changes (thorough 20000, 30000, 100000) '
              'in 40..2000 exact-size classes at threshold 100 or 3 %-classes at threshold 99, the same text under two hashes; large cases '
              '(> 4000 changes) are judged by the fast oracles repairing_fast_b / exact_at per hash bucket and replayed through the model once; '
-             'GOMAXPROCS 1 and 16 with 0..2 goroutines spinning on runtime.Gosched. Non-trivial = at least one addition '
+             'GOMAXPROCS 1 and 16 with 0..2 goroutines spinning on runtime.Gosched. Round 3: (a) crash isolation - every case runs in a '
+             'child process of the harness (batches of up to 3000 inputs; the child appends one complete case line per case); a child that dies '
+             'with a Go panic / fatal error (a panic inside a matcher goroutine cannot be recovered by the caller of Consume) or does not return '
+             'within 600 s yields the case (res crash) / (res hang), a PROPFAIL with that input, and a new child continues; direct calls of '
+             'blobsAreClose that panic are recorded as such; (b) padding: 1..3 moved files made of head ++ long repetitive region (zero / 0xff '
+             'padding, a repeated 16-byte record, a repeated text line) ++ tail, binary and text, 16..4096 bytes of padding, whose new version '
+             'has the region shrunk / grown / truncated inside the region / a chunk appended / a chunk cut from the head / patched in place / '
+             'another fill byte / the head dropped, by 1..8 bytes, half the region, or just around what sizesAreClose admits, in BOTH directions '
+             '(the longer version deleted or added), thresholds 0..100; (c) re-use of the RenameAnalysis instance (field warm, a third of the '
+             'hashmix / modes / sim / timeout / weird / a quarter of the padding cases): before the observed call the same instance consumes the '
+             'reversed change set, the same set, a malformed set (error) and then the reversed one, or the same paths with the blobs rotated, '
+             'optionally followed by Configure + Initialize - the model sees only the observed call (fresh-instance twin); (d) the all-zero and '
+             'the all-ones hash as hashes of real blobs in hashpat / hashmix. Non-trivial = at least one addition '
              'and one deletion; distinct = distinct threshold, timeout, scheduling parameters, blob table and change list (with modes).',
         exhaustive_note='all change lists of length <=4 (quick) / <=5 (thorough) over add/delete of 3 crossing hashes and a modification, '
                         'with small blobs (stage 1 and the assembly), and all lists of length <=4 / <=3 / <=3 (thorough 5/4/4) over add/delete of '
